@@ -3,3 +3,4 @@
 //! `<model>.ops` (the line protocol fed to the Lean driver), `<model>.impl` (what the implementation
 //! answered, one line per op) and `<model>.stats.json` (input distribution, oracle failures).
 pub mod common;
+pub mod sim;
